@@ -245,6 +245,14 @@ def r4(ck, F):
     # Tee writer forwards every io::Write method to both
     imp = [i for i in F.impls if i.get("trait") == IOW and i["self_ty"].startswith(W + "Tee<")]
     if ck.anchor("C13.R4", "io::Write for Tee", imp):
+        # the default write_all / write_fmt loop over `write`, and Tee::write can only report one number for two sinks: with
+        # the provided methods a sink that accepts part of the buffer silently loses the rest of the record
+        for need in ("write", "write_all", "write_fmt", "flush"):
+            if need not in imp[0]["methods"]:
+                ck.bad("C13.R4", "Tee overrides io::Write::%s" % need, imp[0]["span"],
+                       "Tee relies on the provided io::Write::%s: it loops over Tee::write, whose single return value cannot tell that one of the two sinks took only part of the record" % need)
+            else:
+                ck.ok("C13.R4", "Tee overrides io::Write::%s" % need, fn=imp[0]["methods"][need])
         for m, path in imp[0]["methods"].items():
             b = F.body(path)
             both = {recv_fields(b, t)[1][-1] if recv_fields(b, t)[1] else None for bb, t in b.calls() if t["callee"].get("trait") == IOW and t["callee"].get("method") == m}
